@@ -35,6 +35,23 @@ INST = [M.Point(1, 2), M.Color.RED, decimal.Decimal("1.5"), datetime.date(2020, 
         datetime.datetime(2020, 1, 1, tzinfo=datetime.timezone.utc), uuid.UUID(int=5), b"1", (1, 2)]
 
 
+class _View:
+    """Stands for a fresh memoryview over `data` (a view is stateful: it can be released; every call gets its own)."""
+
+    def __init__(self, data):
+        self.data = data
+
+    def __repr__(self):
+        return f"memoryview({self.data!r})"
+
+
+INST += [_View(b"twelve"), _View(b"12"), _View(b"1.5")]
+
+
+def _mat(x):
+    return memoryview(x.data) if type(x) is _View else x
+
+
 def pool():
     return [Int(), Str(), Float(), DecimalS(), DateS(), DateTimeS(), UUIDS_(), ListOf(Int()), DictOf(Str(), Int()), PointS(),
             EnumS(M.Color), Lit("x", "y")]
@@ -86,7 +103,7 @@ def make_u(members, spelling, depth, timeout):
             reached()
             return ("build_failed", name, err)
         x = J.build(Src(p))
-        okc, rc = attempt(UT, x)
+        okc, rc = attempt(UT, _mat(x))
         reached()
         if has_none and x is None:
             if not okc or rc is not None:
@@ -94,7 +111,7 @@ def make_u(members, spelling, depth, timeout):
             return None
         first = None
         for um in UM:
-            ok, r = attempt(um, x)
+            ok, r = attempt(um, _mat(x))
             if ok:
                 first = (r,)
                 break
